@@ -653,7 +653,7 @@ fn main() {
     let thorough = args.thorough();
     let rep = Report::new(
         "C02",
-        "real MaskedIntReg nodes / StructReg entries parsed from generated XML for every (length in {1,2,4,8}, lsb, msb within the register) x byte order x sign, single-Bit form, malformed descriptions; min/max on every node; exhaustive in-range values (+ out-of-range neighbours) for narrow fields, boundary+random values above; boundary/random prior register contents; set_value followed by value() on the same device; sibling write histories on shared StructReg registers; a case is non-trivial when the call succeeds; distinct by full request line",
+        "real MaskedIntReg nodes / StructReg entries parsed from generated XML for every (length in {1,2,4,8}, lsb, msb within the register) x byte order x sign, single-Bit form, malformed descriptions; min/max on every node; exhaustive in-range values (+ out-of-range neighbours) SUBSAMPLED BY NODE: quick = every value for widths <= 4 on all nodes, widths <= 8 on 1/8 of the nodes, widths <= 16 on 1/512 of the nodes; thorough = widths <= 10 on all nodes, widths <= 16 on 1/4 of the nodes; all other (node, width) pairs get boundary + random values (the universal claim over values is carried by the theorems); boundary/random prior register contents; set_value followed by value() on the same device; sibling write histories (uncached, compared with the model) on shared registers realised as StructReg entries AND as separate MaskedIntReg nodes sharing an address; second pass with CACHING ON (default cache store, default/WriteThrough/WriteAround, every field naming its siblings as pInvalidator, both realisations) under implementation-only oracles (every field reads its last accepted value, the device word holds every field's expected value, bits outside written fields and bytes outside the register unchanged); a case is non-trivial when the call succeeds; distinct by full request line",
     );
 
     // ----- replay / corpus -----
